@@ -303,6 +303,16 @@ def run(chk):
         hl.append('fsenorm %d 1 %s' % (max_log, ','.join(str(c) for c in counts)))
     hr = zh_par('entropy', hl)
     nk = 0
+    # the normaliser model of C12_normaliser_output_is_normalised: same accuracy log and probabilities as the real one
+    nmod = model_run('fsenorm', [x[len('fsenorm '):] for x in hl])
+    nnd = 0
+    for ln, a, b in zip(hl, hr, nmod):
+        aw = a.split()
+        if (aw[:3] if aw and aw[0] == 'ok' else ['panic' if a.startswith('panic') else a.split()[0] if a else 'missing']) != b.split():
+            nnd += 1
+            if nnd == 1:
+                chk.tie_broken('correspondence:fse-normalise', 'normaliser model and implementation differ on %s: impl %s model %s' % (ln[:100], a[:80], b[:80]))
+    chk.cov['disagreements_checked'] += nnd
     # every distribution the real normaliser produced must meet the hypothesis of the description theorem
     # ([dist_okb], evaluated in the model), be written identically by model and implementation, and read back
     nl, nidx = [], []
